@@ -8,7 +8,7 @@ import Rbacx.Spec.Cache
               "observed":[[out,[key,…]],…]?}            (values are integers)
     → {"model":[[out,[key,…]],…],               the model's result and key order after every call
        "model_spec":true,                       the observation spec on the model's own trace (c15_trace_ok)
-       "observed_spec":null|{"ok":b,"first_bad":i|null,"clauses":[…]}}   … on the implementation's observations
+       "observed_spec":null|{"ok":b,"first_bad":i|null,"clauses":[…],"bad":[[i,[clause,…]],…]}}   … on the implementation's observations
     out: "done" | "KeyError" | ["got",null] | ["got",v]
 
   cache-tree {"maxsize":…,"prefix":…,"depth":n,"canon":b,
@@ -94,11 +94,13 @@ def cacheOps (j : Json) : Except String Json := do
           let keys ← ks.toList.mapM jStr
           pure (⟨op, o, keys⟩ : Obs Int)
         | _ => throw s!"bad observation {oj.compress}"
-      match firstBad c.maxsize SpecSt.init 0 obs with
-      | none => pure (Json.mkObj [("ok", .bool true), ("first_bad", .null), ("clauses", .arr #[])])
-      | some (i, cl) =>
+      let bad := allBad c.maxsize SpecSt.init 0 obs
+      let encBad := fun (p : Nat × List String) => Json.arr #[.num (JsonNumber.fromNat p.1), .arr (p.2.map Json.str).toArray]
+      match bad with
+      | [] => pure (Json.mkObj [("ok", .bool true), ("first_bad", .null), ("clauses", .arr #[]), ("bad", .arr #[])])
+      | (i, cl) :: _ =>
         pure (Json.mkObj [("ok", .bool false), ("first_bad", .num (JsonNumber.fromNat i)),
-                          ("clauses", .arr (cl.map Json.str).toArray)])
+                          ("clauses", .arr (cl.map Json.str).toArray), ("bad", .arr ((bad.take 40).map encBad).toArray)])
     | _ => pure .null
   pure (Json.mkObj [("model", .arr (tr.map encObs).toArray), ("model_spec", .bool (traceOk c.maxsize tr)),
                     ("observed_spec", observed)])
